@@ -1,5 +1,6 @@
 /- line-protocol handler for model "deflate" (C19): same ops as harness/inproc/h_deflate.c -/
 import LtVerif.Model.Deflate
+import LtVerif.Model.DeflateStream
 namespace Driver
 open LtVerif LtVerif.B LtVerif.Deflate
 
@@ -120,6 +121,7 @@ def parseVtok (s : String) : Option Nat :=
 
 def parseOp (tok : String) : Option Op :=
   match tok.splitOn ":" with
+  | ["K"] => some .tick
   | ["M", f, v, c] =>
     match f.toNat?, v.toNat?, ofHex c with
     | some file, some vv, some content => some (.modify file (validatorOf vv content.length) content)
@@ -163,6 +165,63 @@ def cacheLine (toks : List String) : String :=
     let listing := (fin.fs.map listEntry).toArray.qsort (fun a b => a < b) |>.toList
     String.intercalate " " (obs ++ ["|"] ++ listing)
 
+/-! ### stream assembly (op zs): replay the recorded zlib answers -/
+open LtVerif.DeflateStream in
+def parseLayout (s : String) : Option (List Chunk) :=
+  (s.splitOn ",").mapM fun t =>
+    match t.toList with
+    | k :: ds =>
+      match (String.ofList ds).toNat? with
+      | some n =>
+        let z (m : Nat) : Bytes := List.replicate m 0
+        if n = 0 then none
+        else if k = 'm' then some (.mem (z n))
+        else if k = 'f' then some (.file (z n) 0 n)
+        else if k = 'p' then some (.file (z (3 + n)) 3 n)
+        else if k = 'P' then some (.file (z (n + 100)) 0 n)
+        else if k = 'o' then some (.file (z (3 + n + 100)) 3 n)
+        else none
+      | none => none
+    | [] => none
+
+open LtVerif.DeflateStream in
+def parseZScript (s : String) : Option (List ZR) :=
+  if s = "-" then some [] else
+  (s.splitOn ",").mapM fun t =>
+    match t.splitOn ":" with
+    | [c, p, rc] =>
+      match c.toNat?, p.toNat? with
+      | some cn, some pn =>
+        (if rc = "ok" then some ZRc.ok else if rc = "end" then some ZRc.streamEnd else if rc = "err" then some ZRc.err
+         else none).map fun r => ⟨cn, List.replicate pn 0, r⟩
+      | _, _ => none
+    | _ => none
+
+open LtVerif.DeflateStream in
+def evStr : Ev → String
+  | .call c consumed produced rc =>
+    "D" ++ toString c.availIn ++ ":" ++ toString c.availOut ++ ":" ++ (if c.finish then "1" else "0") ++ ">" ++
+      toString consumed ++ ":" ++ toString produced ++ ":" ++
+      (match rc with | .ok => "ok" | .streamEnd => "end" | .err => "err")
+  | .app n => "A" ++ toString n
+  | .read count off => "R" ++ toString count ++ "@" ++ toString off
+
+open LtVerif.DeflateStream in
+def zsLine (cap layout rsz zsc : String) : String :=
+  match cap.toNat?, parseLayout layout, (if rsz = "-" then some [] else (rsz.splitOn ",").mapM String.toNat?),
+        parseZScript zsc with
+  | some capN, some cq, some reads, some zs =>
+    match compressResponse capN 2097152 cq reads zs with
+    | .ok (st, rest) =>
+      let ok := st.fed.length = (body cq).length && st.obuf.isEmpty && rest.isEmpty
+      String.intercalate " " ([if ok then "ok" else "model-leftover"] ++ st.trace.reverse.map evStr ++
+        ["sink:" ++ toString st.sink.length ++ ":dec"])
+    | .error .codec => "err"
+    | .error .truncated => "err"
+    | .error .invalid => "invalid-script"
+    | .error .stuck => "script-exhausted"
+  | _, _, _, _ => "bad-op"
+
 end Dfl
 
 def deflateLine : List String → String
@@ -175,14 +234,16 @@ def deflateLine : List String → String
     | _, _ => "bad-op"
   | ["rs", al, mi, mn, mx, cd, me, ae, inm, st, fl, ct, et, va, cc, bk, _gen, ln] =>
     Dfl.rsLine al mi mn mx cd me ae inm st fl ct et va cc bk ln
-  | ["name", d, pa, e, pid] =>
-    match ofHex d, ofHex pa, ofHex e, pid.toNat? with
-    | some dir, some path, some etag, some p =>
-      if etag.length < 2 then "bad-op"
+  | ["name", d, pa, e, lab, pid] =>
+    match ofHex d, ofHex pa, ofHex e, Dfl.codingOfLabel lab, pid.toNat? with
+    | some dir, some path, some etag, some c, some p =>
+      if etag.length < 3 then "bad-op"
       else
-        let fn := cacheFileName dir path etag
-        toHex fn ++ " " ++ toHex (tmpFileName fn p)
-    | _, _, _, _ => "bad-op"
+        -- the harness' cache directory is "<scratch>/c" ++ dir; only the part after it is printed
+        let fn := cacheFileName ([47, 99] ++ dir) path (suffixEtag etag c.label)
+        toHex (fn.drop 2) ++ " " ++ toHex ((tmpFileName fn p).drop 2)
+    | _, _, _, _, _ => "bad-op"
+  | ["zs", _lab, cap, layout, _gen, rsz, zsc] => Dfl.zsLine cap layout rsz zsc
   | "cache" :: ops => Dfl.cacheLine ops
   | _ => "bad-op"
 
